@@ -175,6 +175,11 @@ func init() {
 		"vStop": func(it *Interp, fn *ssa.Function, a []Value) Value { panic(pathEnd{"stop", "vStop"}) },
 		"vTag": func(it *Interp, fn *ssa.Function, a []Value) Value {
 			s, _ := a[0].(*StrV).concrete()
+			for _, t := range it.tags {
+				if t == s {
+					return nil
+				}
+			}
 			it.tags = append(it.tags, s)
 			return nil
 		},
